@@ -3,7 +3,7 @@ Function inlining.
 """
 
 from collections.abc import Iterable
-from dataclasses import dataclass
+from dataclasses import dataclass, replace
 
 from ..analysis import (
     AssignDef,
@@ -43,13 +43,16 @@ class _Ctx:
     stmts: list[Stmt]
     is_ctx_expr: bool
     in_while_cond: bool = False
+    conditional: str | None = None
+    """why the expression being visited is not evaluated exactly once where the
+    statement starts, if it is not"""
 
     @staticmethod
     def default():
         return _Ctx(stmts=[], is_ctx_expr=False)
 
 
-def _refuses(e: Call, *, in_while_cond: bool) -> str | None:
+def _refuses(e: Call, *, in_while_cond: bool, conditional: str | None = None) -> str | None:
     """Why the call *e* cannot be inlined, or `None` where it can.
 
     Decided from the call and the callee alone, so a listing and the rewrite
@@ -60,6 +63,11 @@ def _refuses(e: Call, *, in_while_cond: bool) -> str | None:
         return (
             f'inlining `{e.fn.name}` here would splice its body before the '
             f'loop, where a `while` condition is evaluated every iteration'
+        )
+    if conditional is not None:
+        return (
+            f'inlining `{e.fn.name}` here would splice its body before the '
+            f'statement, where it always runs once, but {conditional}'
         )
     # inlining rewrites the trailing return into an assignment to a temp (see
     # `_replace_ret`): none leaves nothing to rewrite, and several would emit
@@ -124,7 +132,7 @@ class _FuncInline(SiteRewriter):
             return super()._visit_call(e, ctx)
 
         # a refusal is not a site, so it takes no index
-        reason = _refuses(e, in_while_cond=ctx.in_while_cond)
+        reason = _refuses(e, in_while_cond=ctx.in_while_cond, conditional=ctx.conditional)
         if reason is not None:
             self.refused.append((e, reason))
             if self._named_by_cursor(e):
@@ -205,6 +213,30 @@ class _FuncInline(SiteRewriter):
         # return the bound value
         return Var(t, e.loc)
 
+
+    def _visit_if_expr(self, e: IfExpr, ctx: _Ctx):
+        cond = self._visit_expr(e.cond, ctx)
+        arm = replace(ctx, conditional='only the selected arm of an if-expression is evaluated')
+        ift = self._visit_expr(e.ift, arm)
+        iff = self._visit_expr(e.iff, arm)
+        return IfExpr(cond, ift, iff, e.loc)
+
+    def _visit_naryop(self, e: NaryOp, ctx: _Ctx):
+        if not isinstance(e, (And, Or)) or not e.args:
+            return super()._visit_naryop(e, ctx)
+        later = replace(ctx, conditional='`and`/`or` evaluate a later operand only when the earlier ones do not decide')
+        args = [self._visit_expr(e.args[0], ctx)]
+        args += [self._visit_expr(arg, later) for arg in e.args[1:]]
+        return type(e)(args, e.loc)
+
+    def _visit_list_comp(self, e: ListComp, ctx: _Ctx):
+        # only the first iterable is evaluated once, before any target is bound
+        each = replace(ctx, conditional='a comprehension evaluates it once per element, with the targets bound')
+        targets = [self._visit_binding(target, ctx) for target in e.targets]
+        iterables = [self._visit_expr(e.iterables[0], ctx)]
+        iterables += [self._visit_expr(iterable, each) for iterable in e.iterables[1:]]
+        elt = self._visit_expr(e.elt, each)
+        return ListComp(targets, iterables, elt, e.loc)
 
     def _visit_while(self, stmt: WhileStmt, ctx: _Ctx):
         cond = self._visit_expr(stmt.cond, _Ctx(ctx.stmts, False, in_while_cond=True))
